@@ -4,4 +4,4 @@ set -e
 rm -rf /tmp/mrepo && mkdir -p /tmp/mrepo && cp -r /repo/crates /tmp/mrepo/ && cp /repo/Cargo.lock /repo/Cargo.toml /tmp/mrepo/
 sed -i "$3" /tmp/mrepo/$2
 if diff -q /repo/$2 /tmp/mrepo/$2 >/dev/null; then echo "MUTATION DID NOT APPLY"; exit 3; fi
-cd /verif && VERIF_REPO=/tmp/mrepo ./check --dev $1 2>&1 | grep "^verus\|^-- \|Unsupported\|COMPILE" | grep -v "in matcher::Matcher::process:\|compute_cost_offsets\|requires of"
+cd /verif && VERIF_REPO=/tmp/mrepo ./check --dev $1 2>&1 | grep "^verus\|^-- \|Unsupported\|COMPILE"
